@@ -35,6 +35,22 @@ struct TrailingAlignmentResult
     std::size_t trailing_alignment;
 };
 
+// Padding between the end of a parameter at `offset` and the next address aligned to NextAlignment. `offset` is
+// relative to a position that is only known to be aligned to max(alignment, parameter_alignment) - after a VaryingSize
+// span that can be less than NextAlignment, then the worst case has to be assumed.
+template <std::size_t TrailingAlignment, std::size_t NextAlignment>
+constexpr std::size_t trailing_padding(std::size_t offset, std::size_t alignment, std::size_t parameter_alignment) noexcept
+{
+    const auto known_alignment = (std::max)(alignment, parameter_alignment);
+    if (known_alignment < NextAlignment)
+    {
+        const auto position_alignment =
+            offset == 0 ? known_alignment : detail::trailing_alignment(offset, known_alignment);
+        return NextAlignment - position_alignment;
+    }
+    return detail::align_if<(TrailingAlignment < NextAlignment), NextAlignment>(offset) - offset;
+}
+
 template <class T>
 struct VaryingSizeAddresses
 {
@@ -124,8 +140,8 @@ struct ParameterTraits<cntgs::AlignAs<T, Alignment>>
             size = alignment_offset - offset + VALUE_BYTES;
             new_offset = offset + size;
         }
-        const auto padding_offset = detail::align_if<(TRAILING_ALIGNMENT < NextAlignment), NextAlignment>(new_offset);
-        return {new_offset, size, padding_offset - new_offset, (std::max)(alignment, ALIGNMENT)};
+        return {new_offset, size, detail::trailing_padding<TRAILING_ALIGNMENT, NextAlignment>(new_offset, alignment, ALIGNMENT),
+                (std::max)(alignment, ALIGNMENT)};
     }
 
     static auto data_begin(ConstReferenceType reference) noexcept
@@ -421,8 +437,8 @@ struct ParameterTraits<cntgs::FixedSize<cntgs::AlignAs<T, Alignment>>> : BaseCon
             size = alignment_offset - offset + value_size;
             new_offset = offset + size;
         }
-        const auto padding_offset = detail::align_if<(TRAILING_ALIGNMENT < NextAlignment), NextAlignment>(new_offset);
-        return {new_offset, size, padding_offset - new_offset, (std::max)(alignment, ALIGNMENT)};
+        return {new_offset, size, detail::trailing_padding<TRAILING_ALIGNMENT, NextAlignment>(new_offset, alignment, ALIGNMENT),
+                (std::max)(alignment, ALIGNMENT)};
     }
 
     static void copy(const cntgs::Span<std::add_const_t<T>>& source,
